@@ -75,6 +75,7 @@ type Req struct {
 	Body         *unstructured.Unstructured // deep copy of what was sent
 	Pre          *unstructured.Unstructured // deep copy of the stored target before the request (nil = absent)
 	Err          error                      // outcome
+	RevReq                                  // ControllerRevision requests carry typed bodies
 	Accepted     bool                       // the store was changed / the verb succeeded
 }
 
@@ -88,6 +89,7 @@ type stored struct {
 // Server is a tiny Kubernetes-like object store implementing dynamic.Interface.
 type Server struct {
 	objs []*stored
+	revs []*revStored
 	Log  []Req
 	seq  int
 	nuid int
